@@ -286,6 +286,8 @@ type sockRound struct {
 	refused    int
 	hung       [2]int // SendToTarget calls that did not return within 3 s
 	midBad     bool
+	batch      map[string]int // id -> number of the concurrent batch it was submitted in (absent: submitted alone)
+	batches    int
 	lon, lout  [2]int
 	on         [2]bool // between an OnLogon and the next OnLogout
 	dbl        [2]int  // OnLogon while already logged on
@@ -349,6 +351,16 @@ func (a sockApp) FromApp(m *quickfix.Message, id quickfix.SessionID) quickfix.Me
 	// has submitted so far (a submission is recorded before SendToTarget is called, see submit)
 	exp := r.sub[1-a.side]
 	n := len(r.dlv[a.side])
+	if b := r.batch[p]; b != 0 && n < len(exp) && exp[n] != p && r.batch[exp[n]] == b {
+		// submitted concurrently with the one expected here: every order within the batch is a legal one, so the
+		// batch's submission order is defined by the order of its first deliveries
+		for j := n + 1; j < len(exp) && r.batch[exp[j]] == b; j++ {
+			if exp[j] == p {
+				exp[n], exp[j] = exp[j], exp[n]
+				break
+			}
+		}
+	}
 	if n >= len(exp) || exp[n] != p {
 		r.midBad = true
 	}
@@ -532,6 +544,35 @@ func timed(d time.Duration, f func()) bool {
 	}
 }
 
+// submitConc: k application goroutines submit one message each on the same session at the same moment.
+func (r *sockRound) submitConc(side, k int) {
+	r.mu.Lock()
+	if r.hung[side] > 0 {
+		r.mu.Unlock()
+		return
+	}
+	if r.batch == nil {
+		r.batch = map[string]int{}
+	}
+	r.batches++
+	ids := make([]string, k)
+	for i := range ids {
+		r.ctr[side]++
+		ids[i] = string("ab"[side]) + strconv.Itoa(r.ctr[side])
+		r.batch[ids[i]] = r.batches
+		r.sub[side] = append(r.sub[side], ids[i])
+	}
+	r.mu.Unlock()
+	var wg sync.WaitGroup
+	start := make(chan struct{})
+	for _, id := range ids {
+		wg.Add(1)
+		go func(id string) { defer wg.Done(); <-start; r.submitOne(side, id) }(id)
+	}
+	close(start)
+	wg.Wait()
+}
+
 func (r *sockRound) submit(side, k int) {
 	for i := 0; i < k; i++ {
 		r.mu.Lock()
@@ -543,6 +584,15 @@ func (r *sockRound) submit(side, k int) {
 		id := string("ab"[side]) + strconv.Itoa(r.ctr[side])
 		r.sub[side] = append(r.sub[side], id) // recorded first: the delivery may overtake the return of SendToTarget
 		r.mu.Unlock()
+		if !r.submitOne(side, id) {
+			return
+		}
+	}
+}
+
+// submitOne: one SendToTarget of an id already recorded as submitted; false when the call never came back.
+func (r *sockRound) submitOne(side int, id string) bool {
+	{
 		m := quickfix.NewMessage()
 		m.Header.SetString(35, "D")
 		m.Body.SetString(9000, id)
@@ -552,12 +602,15 @@ func (r *sockRound) submit(side, k int) {
 			r.hung[side]++
 			r.mu.Unlock()
 			r.note("submit %s: SendToTarget did not return within 3s", id)
-			return
+			return false
 		}
 		if err != nil {
 			r.mu.Lock()
-			if n := len(r.sub[side]); n > 0 && r.sub[side][n-1] == id {
-				r.sub[side] = r.sub[side][:n-1]
+			for i := len(r.sub[side]) - 1; i >= 0; i-- {
+				if r.sub[side][i] == id {
+					r.sub[side] = append(r.sub[side][:i:i], r.sub[side][i+1:]...)
+					break
+				}
 			}
 			r.refused++
 			r.mu.Unlock()
@@ -566,6 +619,7 @@ func (r *sockRound) submit(side, k int) {
 			r.note("submit %s", id)
 		}
 	}
+	return true
 }
 
 func (r *sockRound) isUp() bool {
@@ -978,6 +1032,10 @@ func (r *sockRound) event(e string) {
 				r.note("restart B failed: %v", err)
 			}
 		}
+	case strings.HasPrefix(e, "cA"):
+		r.submitConc(0, num(e[2:]))
+	case strings.HasPrefix(e, "cB"):
+		r.submitConc(1, num(e[2:]))
 	case strings.HasPrefix(e, "sA"):
 		r.submit(0, num(e[2:]))
 	case strings.HasPrefix(e, "sB"):
@@ -1377,11 +1435,13 @@ func (g *sockGen) sends(ev []string) []string {
 	r := g.r
 	n := 1 + r.intn(3)
 	for i := 0; i < n; i++ {
-		switch r.intn(5) {
+		switch r.intn(6) {
 		case 0, 1:
 			ev = append(ev, fmt.Sprintf("sA%d", 1+r.intn(4)))
 		case 2, 3:
 			ev = append(ev, fmt.Sprintf("sB%d", 1+r.intn(4)))
+		case 4: // several application goroutines on one session at once
+			ev = append(ev, fmt.Sprintf("c%s%d", r.pick([]string{"A", "B"}), 2+r.intn(3)))
 		default:
 			ev = append(ev, fmt.Sprintf("p%d", 1+r.intn(5)))
 		}
